@@ -115,12 +115,12 @@ theorem readLineEnding_sim (h : Sim S T abs inv) (s : σ) (hi : inv s) :
   | panic => exact ⟨rfl, rfl, hb⟩
 
 theorem parseHeadersLoop_sim (h : Sim S T abs inv) (fuel : Nat) :
-    ∀ (s : σ) (mh : Nat) (hs : Headers), inv s →
-    Rel abs inv (parseHeadersLoop S fuel s mh hs) (parseHeadersLoop T fuel (abs s) mh hs) := by
+    ∀ (s : σ) (mh cnt : Nat) (hs : Headers), inv s →
+    Rel abs inv (parseHeadersLoop S fuel s mh cnt hs) (parseHeadersLoop T fuel (abs s) mh cnt hs) := by
   induction fuel with
-  | zero => intro s mh hs hi; exact ⟨rfl, rfl, hi⟩
+  | zero => intro s mh cnt hs hi; exact ⟨rfl, rfl, hi⟩
   | succ fuel ih =>
-    intro s mh hs hi
+    intro s mh cnt hs hi
     unfold parseHeadersLoop
     obtain ⟨a, b, hx, hy, hb⟩ := (readLineStrict_sim h s Consts.maxLineLen hi).elim
     rw [hx, hy]
@@ -133,12 +133,12 @@ theorem parseHeadersLoop_sim (h : Sim S T abs inv) (fuel : Nat) :
         · exact ⟨rfl, rfl, hb⟩
         · cases parseFieldLine line with
           | bad e => exact ⟨rfl, rfl, hb⟩
-          | skip => exact ih b mh hs hb
+          | skip => exact ih b mh _ hs hb
           | field n v =>
             simp only
             split
             · exact ⟨rfl, rfl, hb⟩
-            · exact ih b mh _ hb
+            · exact ih b mh _ _ hb
     | err e => exact ⟨rfl, rfl, hb⟩
     | blocked => exact ⟨rfl, rfl, hb⟩
     | panic => exact ⟨rfl, rfl, hb⟩
@@ -156,7 +156,7 @@ theorem parseResponseHead_sim (h : Sim S T abs inv) (s : σ) (mh : Nat) (hi : in
     | ok status =>
       simp only
       have hf : headFuel S b = headFuel T (abs b) := by simp [headFuel, h.size b hb]
-      obtain ⟨a2, b2, hx2, hy2, hb2⟩ := (parseHeadersLoop_sim h (headFuel S b) b mh [] hb).elim
+      obtain ⟨a2, b2, hx2, hy2, hb2⟩ := (parseHeadersLoop_sim h (headFuel S b) b mh 0 [] hb).elim
       rw [← hf, hx2, hy2]
       cases a2 <;> exact ⟨rfl, rfl, hb2⟩
   | err e => exact ⟨rfl, rfl, hb⟩
